@@ -990,5 +990,52 @@ def r8(cx):
     cx.require(n >= 2, 'the assignments recording -l and -v were not found')
 
 
+# ---------------------------------------------------------------------------------------
+# added after seed wave 3 (C20-s6: getopts, an unknown letter ended its group)
+@RS.rule('C20.R9', 'K-SIBLING', 'getopts: grouped option letters are equivalent to separate ones (`-xa` = `-x -a`) also when a letter is not in '
+         'the option string: every letter that takes no argument - valid or unknown - leaves the scan inside the same group (the step to '
+         'the next argument is computed from the rest of the group, never a constant)')
+def r9(cx):
+    F = cx.F
+    fn = 'yash_builtin::getopts::model::next'
+    ADT = 'yash_builtin::getopts::model::OptionType'
+    cx.fn(fn)
+    table, m = H.fn_match_table(F, fn, ADT)
+    cx.require(table, 'the match over OptionType in getopts::model::next was not found')
+    variants = [v.split('::')[-1] for v in H.enum_variants(F, ADT)]
+    steps = {}
+    for v in variants:
+        if v not in table:
+            cx.violation(fn, 'option-type-without-arm:%s' % v, 'OptionType::%s has no arm of its own in getopts::next' % v)
+            continue
+        i, arm = table[v]
+        arm = H.peel(arm)
+        elems = arm.get('a') if arm.get('k') == 'tup' else None
+        if elems is None:
+            steps[v] = ('computed-in-block', None)     # the TakesArgument arm: a block that decides by the remainder
+            continue
+        cx.require(len(elems) == 3, 'the (argument, step, error) triple of getopts::next changed shape')
+        step = H.peel(elems[1])
+        if step.get('k') == 'lit':
+            steps[v] = ('constant', H.lit_value(step))
+        elif step.get('k') in ('call', 'mcall'):
+            uses_rest = any(x.get('k') == 'local' and x.get('name') == 'chars' for x in H.walk(step))
+            steps[v] = ('from-rest-of-group' if uses_rest else 'call', step.get('def'))
+        else:
+            steps[v] = (step.get('k'), None)
+        takes_arg = H.peel(elems[0]).get('def', '').endswith('Option::None') is False
+        cx.site('getopts::next: OptionType::%s -> step %s%s' % (v, steps[v][0], ' (takes an argument)' if takes_arg else ''))
+        cx.cellcount(1)
+        if not takes_arg and steps[v][0] != 'from-rest-of-group':
+            cx.violation(fn, 'letter-ends-group:%s' % v, 'after a letter of kind %s, which takes no argument, getopts moves on by %s instead of '
+                         'looking at the rest of the group: with optstring `a`, `-xa` reports only `?` and silently drops `a`, while `-x -a` '
+                         'reports `?` then `a` - grouped and separate spellings are no longer equivalent' % (v, steps[v][0]),
+                         loc='%s:%s' % (F.hir[fn]['file'], step.get('line') or F.hir[fn]['line']))
+    noarg = {v: s for v, s in steps.items() if s[0] != 'computed-in-block'}
+    if len({s for s in noarg.values()}) > 1:
+        cx.violation(fn, 'no-argument-letters-differ', 'the letters that take no argument advance differently: %s' % sorted(noarg.items()))
+    cx.floor(len(steps), 3, 'option kinds of getopts')
+
+
 # --- explanation addendum (generated catalogue in DESIGN.md reads RS.explanation)
-RS.explanation += " Added later: ulimit's long names agree with the resource selected by the short letter (R1b); the cut of `--name=value` is measured in the text the user typed (R3b). the user manual's -x (--long) pairs are pairs of the option tables (R6)."
+RS.explanation += " Added later: ulimit's long names agree with the resource selected by the short letter (R1b); the cut of `--name=value` is measured in the text the user typed (R3b). the user manual's -x (--long) pairs are pairs of the option tables (R6). getopts keeps scanning a group after any letter without argument (R9)."
